@@ -27,7 +27,9 @@ def gen_costs(rng):
 def gen_text(rng, n, uni=False):
     al = ALPHA + ('\r\n' if rng.random() < 0.5 else '')
     if uni:
-        al = al + u'\xe9€'
+        al = al + u'\xe9€' + (u'\U0001f600' if rng.random() < 0.3 else u'')
+    elif rng.random() < 0.15:
+        al = al + rng.choice(['\x00', '\xff', '\x7f\x00', '\r'])      # NUL, 0xff, DEL, bare CR
     out = []
     while len(out) < n:
         r = rng.random()
@@ -187,6 +189,8 @@ def generate(rng, profile='engine'):
     elif rng.random() < 0.2:
         scn['delayafterread'] = rng.choice([None, 0.001])
     zero_ok = rng.random() < 0.25
+    if rng.random() < 0.1:
+        scn['ignorecase'] = True
     n = rng.choice([0, 1, 3, 6, 10, 20, 30, 60]) if rng.random() < 0.9 else rng.randint(60, 400)
     if os.environ.get('SIMPEX_TIER') == 'thorough' and rng.random() < 0.3:
         n = rng.randint(100, 1500)
@@ -219,6 +223,8 @@ def generate(rng, profile='engine'):
         end = {'op': 'exit', 'code': rng.choice([0, 0, 1, 7])} if tr in ('pty', 'popen', 'pxssh') else {'op': 'close'}
         if tr == 'pty' and rng.random() < 0.2:
             end = {'op': 'close'}
+        if tr == 'sock' and profile == 'eof' and rng.random() < 0.3:
+            end = {'op': 'reset'}      # an error that is NOT end-of-stream: must pass through unchanged
         r = rng.random()
         if r < 0.15:
             end['at'] = [rng.randrange(nops), rng.randint(1, 12)]
@@ -274,6 +280,8 @@ def generate(rng, profile='engine'):
             op['sws'] = rng.choice([1, 2, 3, 4, 5, 8, 1000])
         if api == 'expect' and len(op['pats']) == 1 and rng.random() < 0.5:
             op['single'] = True
+        if api == 'expect' and rng.random() < 0.5:
+            op['raw'] = True
         ops.append(op)
     if profile == 'eof' and tr in ('pty', 'pxssh', 'fd', 'sock') and rng.random() < 0.15:
         ops.append({'op': 'close'})
@@ -437,6 +445,14 @@ def evaluate(r, clauses=None):
                 return out    # nothing more to judge
             if isinstance(val, HarnessError):
                 raise val
+            if isinstance(val, ConnectionResetError) and any(st_.get('op') == 'reset' for st_ in r.scn.get('peer', [])):
+                # not an end-of-stream condition: it must come through unchanged, with the attributes errored() documents
+                r.w.probe('error_passed_through')
+                if call['before'] != E or call['after'] is not None or call['match'] is not None or call['match_index'] is not None:
+                    if V('C04.errored', 'after a transport error before/after/match/match_index are %r/%r/%r/%r, expected all pending '
+                         'text/None/None/None' % (call['before'], call['after'], call['match'], call['match_index']), call):
+                        return out
+                return out
             if V('C04.other_exception', 'raised %s: %s' % (type(val).__name__, val), call,
                  exc_site=harness._tb_site(val)):
                 out[-1].site = harness._tb_site(val)
@@ -488,6 +504,12 @@ def evaluate(r, clauses=None):
                 if call['match'] is not None or call['match_index'] is not None:
                     if V('C04.match_attrs', 'match/match_index are %r/%r after raised %s'
                          % (call['match'], call['match_index'], name), call):
+                        return out
+            if is_eof and not seen_eof and getattr(r, 'sock', None) is not None:
+                end_ = r.sock._end
+                if end_.reset and not end_.rx.wr_closed:
+                    if V('C04.error_as_eof', 'EOF reported although the stream did not end: the connection was reset by the peer '
+                         '(an error that must pass through)', call):
                         return out
             if is_eof:
                 seen_eof = True
